@@ -68,7 +68,7 @@ def _run_shard(binary, cases, results, timeout_ms):
         inp = "".join(json.dumps(dict(c, timeout_ms=c.get("timeout_ms", timeout_ms))) + "\n" for c in chunk)
         p = subprocess.run([binary], input=inp, stdout=subprocess.PIPE, stderr=subprocess.PIPE, text=True)
         got = 0
-        for line in p.stdout.splitlines():
+        for line in p.stdout.split("\n"):
             try:
                 o = json.loads(line)
             except Exception:
@@ -104,7 +104,8 @@ def run_cases(binary, cases, jobs=None, timeout_ms=20000):
         t.join()
     missing = [c["id"] for c in cases if c["id"] not in results]
     if missing:
-        raise ToolError("harness returned no observation for cases %s" % missing[:5])
+        first = [c for c in cases if c["id"] == missing[0]][0]
+        raise ToolError("harness returned no observation for cases %s; first: %s" % (missing[:5], json.dumps(first)[:600]))
     return results
 
 
